@@ -199,7 +199,7 @@ func readTok(dec *json.Decoder, depth int) (*V, error) {
 					out.M[i].V = e // last one wins, first position kept (PHP and Go agree on the value)
 				} else {
 					idx[k] = len(out.M)
-					out.M = append(out.M, KV{k, e})
+					out.M = append(out.M, KV{K: k, V: e})
 				}
 			}
 			if _, err := dec.Token(); err != nil {
@@ -472,6 +472,11 @@ func assocEq(want, got *V, assoc bool) bool {
 	}
 	if isNum(want) && isNum(got) {
 		return numEq(want, got)
+	}
+	if assoc && want.K == KMap && got.K == KList && !got.Obj {
+		// assoc=true turns objects into PHP arrays: {"0":"a","1":"b"} and the list ["a","b"]
+		// are the same array, an implementation may return either form
+		got = &V{K: KMap, M: pairs(got)}
 	}
 	if want.K != got.K {
 		return false
@@ -801,7 +806,7 @@ func (j *jsonSec) decodeCase(v *V, st jstyle) {
 		}
 	}
 	// object mode below the top level
-	wrapped := vMap(KV{"v", v})
+	wrapped := vMap(KV{K: "v", V: v})
 	wt := jsonText(wrapped, st)
 	if oc, r := j.judgeDecode(wt, wrapped, false); oc != decOK {
 		j.reportDecode(wt, wrapped, st, false, oc, r)
@@ -956,7 +961,7 @@ func runJSON(w *Worker) {
 					j.decodeCase(v, st)
 				}
 				j.encodeCase(vList(v))
-				j.encodeCase(vMap(KV{"k", v}))
+				j.encodeCase(vMap(KV{K: "k", V: v}))
 			}
 		}
 	}
@@ -980,7 +985,7 @@ func runJSON(w *Worker) {
 		if i%5 == 0 { // make sure containers are well represented
 			v = vList(genValue(r, o, 1), genValue(r, o, 1))
 			if i%10 == 0 {
-				v = vMap(KV{genKey(r, o), genValue(r, o, 1)}, KV{"zz", genValue(r, o, 1)})
+				v = vMap(KV{K: genKey(r, o), V: genValue(r, o, 1)}, KV{K: "zz", V: genValue(r, o, 1)})
 			}
 		}
 		st := styles[r.Intn(len(styles))]
